@@ -351,7 +351,12 @@ Fixpoint fail_index (m : mon) (i : Z) (tr : list (op * obs)) : option (Z * Z) :=
    choose victims differently (pstoreds only among the entries present before
    the batch), so "exactly" and "same answers" have no well-defined target. *)
 Record uent := mkU { up : Z; ua : Z; uexp : Z; uconn : bool }.
-Record wmon := mkW { w_now : Z; w_ents : list uent; w_recs : list (Z * Z); w_fresh : bool }.
+(* w_last: for a peer, the address named LAST by the peer's most recent write
+   batch and the deadline that batch assigned to it, (p, a, now + ttl) — kept
+   only while no later write touches the peer, and only for batches that fit
+   under the cap by themselves (see [last_mark]). *)
+Record wmon := mkW { w_now : Z; w_ents : list uent; w_recs : list (Z * Z); w_fresh : bool;
+                     w_last : list (Z * Z * Z) }.
 
 Fixpoint u_raise (p a exp : Z) (c over : bool) (l : list uent) : list uent :=
   match l with
@@ -362,14 +367,41 @@ Fixpoint u_raise (p a exp : Z) (c over : bool) (l : list uent) : list uent :=
       else e :: u_raise p a exp c over r
   end.
 
-Definition w_step (pcap rcap : Z) (w : wmon) (o : op) (x : obs) : option wmon :=
+(* "THE MOST RECENT ASSIGNMENT IS KEPT".  A cap makes room for a new address by
+   evicting an OLDER assignment (the unconnected entry with the nearest
+   expiry); it never is a reason to lose the assignment being made.  The
+   address a write batch names last is the most recent assignment of all:
+   nothing is assigned after it, so nothing can evict it, and it can be refused
+   only if no room can be made.  pstoremem always can make room (cap >= 1).
+   pstoreds evicts only among the entries present before the batch, so it
+   refuses once the batch itself has filled the cap: that needs more than
+   [pcap] distinct addresses in the batch.  Hence, for both books: after
+   AddAddrs / SetAddrs with a positive TTL whose batch names at most [pcap]
+   distinct addresses (any number if the TTL class is connected or no per-peer
+   cap binds), the address named last is returned by Addrs until the deadline
+   the batch assigned, as long as no later write touches the peer.  (Not
+   claimed when pstoremem's global cap binds: it refuses whole batches.) *)
+Fixpoint distinct_count (l : list Z) : Z :=
+  match l with [] => 0 | x :: r => (if zmem x r then 0 else 1) + distinct_count r end.
+Definition drop_last_mark (p : Z) (l : list (Z * Z * Z)) : list (Z * Z * Z) :=
+  filter (fun m => negb (fst (fst m) =? p)) l.
+Definition last_mark (pcap gcap : Z) (p ttl now : Z) (cl : list Z) (l : list (Z * Z * Z)) : list (Z * Z * Z) :=
+  match rev cl with
+  | [] => l                                   (* nothing named: the call does nothing *)
+  | a :: _ =>
+      if (gcap =? 0) && ((pcap <=? 0) || conn ttl || (distinct_count cl <=? pcap))
+      then (p, a, now + ttl) :: drop_last_mark p l
+      else drop_last_mark p l
+  end.
+
+Definition w_step (pcap gcap rcap : Z) (w : wmon) (o : op) (x : obs) : option wmon :=
   let now := w_now w in
   let ulive p := filter (fun e => (up e =? p) && (now <? uexp e)) (w_ents w) in
   match o, x with
   | OAdd p ttl l, ONone =>
       Some (if ttl <=? 0 then w else
               mkW now (fold_left (fun acc a => u_raise p a (now + ttl) (conn ttl) false acc) (clean_addrs l) (w_ents w))
-                  (w_recs w) false)
+                  (w_recs w) false (last_mark pcap gcap p ttl now (clean_addrs l) (w_last w)))
   | OSet p ttl l, ONone =>
       Some (mkW now
               (fold_left (fun acc a =>
@@ -378,29 +410,33 @@ Definition w_step (pcap rcap : Z) (w : wmon) (o : op) (x : obs) : option wmon :=
                                     that the peer's count of ever-connected addresses is not lowered *)
                                  map (fun e => if (up e =? p) && (ua e =? a) then mkU p a now (uconn e) else e) acc)
                          (clean_addrs l) (w_ents w))
-              (w_recs w) false)
+              (w_recs w) false
+              (if 0 <? ttl then last_mark pcap gcap p ttl now (clean_addrs l) (w_last w)
+               else drop_last_mark p (w_last w)))
   | OUpdate p old new, ONone =>
       Some (mkW now (map (fun e => if up e =? p
                                    then mkU p (ua e) (Z.max (uexp e) (now + new)) (uconn e || conn new)
                                    else e) (w_ents w))
-                (w_recs w) false)
+                (w_recs w) false (drop_last_mark p (w_last w)))
   | OClear p, ONone =>
       Some (mkW now (filter (fun e => negb (up e =? p)) (w_ents w))
-                (filter (fun r => negb (fst r =? p)) (w_recs w)) false)
+                (filter (fun r => negb (fst r =? p)) (w_recs w)) false (drop_last_mark p (w_last w)))
   | OConsume p seq id ttl bad l, OVal v =>
       if bad then (if v =? 2 then Some w else None)
       else if v =? 1 then
         Some (mkW now
                 (if ttl <=? 0 then w_ents w
                  else fold_left (fun acc a => u_raise p a (now + ttl) (conn ttl) false acc) (clean_addrs l) (w_ents w))
-                ((p, id) :: w_recs w) false)
+                ((p, id) :: w_recs w) false (drop_last_mark p (w_last w)))
       else if (v =? 0) || ((v =? 2) && (0 <? rcap)) then Some w   (* 2: "too many signed peer records" *)
       else None
   | OAddrs p, OList v =>
       let lv := ulive p in
       let k := zlen' (filter (fun e => (up e =? p) && uconn e) (w_ents w)) in
       if forallb (fun a => existsb (fun e => ua e =? a) lv) v && nodup_b v &&
-         ((pcap <=? 0) || (zlen' v <=? pcap + 2 * k))
+         ((pcap <=? 0) || (zlen' v <=? pcap + 2 * k)) &&
+         forallb (fun m => let '(q, a, dl) := m in
+                           negb ((q =? p) && (now <? dl)) || zmem a v) (w_last w)
       then Some w else None
   | OGetRec p, OVal v =>
       if (v =? 0) || (existsb (fun r => (fst r =? p) && (snd r =? v)) (w_recs w)
@@ -410,26 +446,28 @@ Definition w_step (pcap rcap : Z) (w : wmon) (o : op) (x : obs) : option wmon :=
       if forallb (fun p => if w_fresh w then negb (Nat.eqb (length (ulive p)) 0)
                            else existsb (fun e => up e =? p) (w_ents w)) v && nodup_b v
       then Some w else None
-  | OAdvance d, ONone => Some (mkW (now + d) (w_ents w) (w_recs w) false)
+  | OAdvance d, ONone => Some (mkW (now + d) (w_ents w) (w_recs w) false (w_last w))
   | OGC, OSizes st rc _ =>
       if (st <=? zlen' (filter (fun e => now <? uexp e) (w_ents w)))
-      then Some (mkW now (w_ents w) (w_recs w) true) else None
+      then Some (mkW now (w_ents w) (w_recs w) true (w_last w)) else None
   | OReopen, ONone => Some w
   | _, _ => None
   end.
 
-Fixpoint weak_fail (pcap rcap : Z) (w : wmon) (i : Z) (tr : list (op * obs)) : option (Z * Z) :=
+Fixpoint weak_fail (pcap gcap rcap : Z) (w : wmon) (i : Z) (tr : list (op * obs)) : option (Z * Z) :=
   match tr with
   | [] => None
   | (o, x) :: r =>
-      match w_step pcap rcap w o x with
-      | Some w' => weak_fail pcap rcap w' (i + 1) r
+      match w_step pcap gcap rcap w o x with
+      | Some w' => weak_fail pcap gcap rcap w' (i + 1) r
       | None => Some (i, clause_of o)
       end
   end.
 
-Definition holds_weak (pcap rcap : Z) (tr : list (op * obs)) : bool :=
-  match weak_fail pcap rcap (mkW 0 [] [] false) 0 tr with None => true | Some _ => false end.
+Definition w_init : wmon := mkW 0 [] [] false [].
+
+Definition holds_weak (pcap gcap rcap : Z) (tr : list (op * obs)) : bool :=
+  match weak_fail pcap gcap rcap w_init 0 tr with None => true | Some _ => false end.
 
 (* diagnostic: 902 index clause store weak  (root: index opcode stale lapsed sfx result)* *)
 Definition monitor_case (l : list Z) : list Z :=
@@ -437,7 +475,7 @@ Definition monitor_case (l : list Z) : list Z :=
   | None => [ERR_MALFORMED; 0]
   | Some (c, tr) =>
       if binding c then
-        match weak_fail (c_pcap c) (c_rcap c) (mkW 0 [] [] false) 0 tr with
+        match weak_fail (c_pcap c) (c_gcap c) (c_rcap c) w_init 0 tr with
         | None => []
         | Some (i, cl) => [ERR_PROPERTY; i; cl; c_store c; 1]
         end
